@@ -113,16 +113,32 @@ Definition code_disc : disc := if code_guarded then Guarded else Unguarded.
 
 (* ---- a cache hit that was registered for another descriptor (ConcKey.v) ---------------- *)
 (* The cache is keyed by (package, descriptor path joined with "_"), which two descriptors can share.
-   The lookup of Schema (schemaLocked) and the lookups of the field builders (through
-   newRefPlaceholder) either serve whatever they find, or compare the descriptor the RefSchema was
-   registered for (token read:source, a field of RefSchema) and fail on a foreign one.  HitCheck is
-   chosen only if EVERY function that looks a message up does the comparison. *)
-Definition reads_source (tab : fn_table) (fname : string) : bool :=
-  existsb (fun f => String.eqb (fst (fst f)) fname && existsb (String.eqb "read:source") (snd f)) tab.
+   Since /repo 0e6056c a RefSchema remembers the descriptor it was registered for (field source) and
+   RefSchema.claim(descriptor) fails on another one.  HitCheck is chosen only if claim compares the
+   field (read:source), the lookup of Schema calls it before it looks at To (schemaLocked), and the
+   one function through which every field builder finds or creates its ref calls it too
+   (newRefPlaceholder; refTo itself is below it and only touches the map). *)
+Definition has_token (tab : fn_table) (fname tok : string) : bool :=
+  existsb (fun f => String.eqb (fst (fst f)) fname && existsb (String.eqb tok) (snd f)) tab.
+
+(* "call:claim" stands between the map lookup and the first look at To *)
+Fixpoint claim_before_to (seen_lookup : bool) (toks : list string) : bool :=
+  match toks with
+  | [] => false
+  | t :: r =>
+      if String.eqb t "read:Schemas" then claim_before_to true r
+      else if String.eqb t "call:claim" then seen_lookup
+      else if String.eqb t "read:To" then false
+      else claim_before_to seen_lookup r
+  end.
 
 Definition code_checks_source : bool :=
-  reads_source ConcGen.cache_methods "schemaLocked" &&
-  reads_source ConcGen.placeholder_functions "buildMessageFieldSchema".
+  existsb (String.eqb "read:source") ConcGen.claim_method &&
+  match find_fn ConcGen.cache_methods "schemaLocked" with
+  | Some (_, toks) => claim_before_to false toks
+  | None => false
+  end &&
+  has_token ConcGen.placeholder_functions "newRefPlaceholder" "call:claim".
 
 Definition code_hitpol : hitpol := if code_checks_source then HitCheck else HitServe.
 
@@ -171,10 +187,11 @@ Definition expected_cache_methods : fn_table := [
   ("refTo", false, ["call:referencePackage"; "hook:refto.lookup"; "read:Schemas"; "hook:refto.insert"; "write:Schemas";
                     "setfield:registered"]);
   ("referencePackage", false, ["read:packages"; "write:packages"]);
-  (* lookup (hit: To is looked at — nil: "unlinked ref", typed nil: no schema; both only without the
+  (* lookup (hit: the ref must have been registered for this descriptor — RefSchema.claim, else the call
+     fails —, then To is looked at — nil: "unlinked ref", typed nil: no schema; both only without the
      lock — and returned); insert the placeholder; build; To = result (or the typed nil of a failed
      build); To is looked at again and returned *)
-  ("schemaLocked", false, ["call:referencePackage"; "hook:cache.lookup"; "read:Schemas";
+  ("schemaLocked", false, ["call:referencePackage"; "hook:cache.lookup"; "read:Schemas"; "call:claim";
                            "hook:cache.insert"; "write:Schemas"; "setfield:registered"; "write:To"; "write:To";
                            "hook:cache.linked"])
 ].
@@ -194,7 +211,7 @@ Definition expected_placeholder_functions : fn_table := [
   ("buildEnumFieldSchema", false, ["call:newRefPlaceholder"; "write:To"; "hook:ref.linked"]);
   ("buildMessageFieldSchema", false, ["call:newRefPlaceholder"; "write:To"; "write:To"; "hook:ref.linked"]);
   ("messageProperties", false, ["call:newRefPlaceholder"; "write:To"; "hook:ref.linked"]);
-  ("newRefPlaceholder", false, ["call:refTo"])
+  ("newRefPlaceholder", false, ["call:refTo"; "call:claim"])
 ].
 
 (* the functions of internal/codec that obtain the root schema through the reflector *)
